@@ -254,6 +254,13 @@ def build_program(draw, profile):
             b.add_class(dims, flows)
             prog.edges.append(Edge(s, ctlname, ci, "Y", [(None, ["i0"])], [(None, ["j0", ("0", "(%s)-1" % subst(c1, {"i0": "j0"}))])], ctl=True, kind="ctl_gather"))
             prog.features.add("ctl_gather")
+            if draw(st.booleans()):
+                # a second control output of the same producers gathered into the SAME control flow: the consumer's flow has two
+                # unconditional ranged input dependencies (its dependency count is the sum of both gathers)
+                ctl2 = "X%d" % len(prog.edges)
+                scls.flows.append(Flow(ctl2, "CTL"))
+                prog.edges.append(Edge(s, ctl2, ci, "Y", [(None, ["i0"])], [(None, ["j0", ("0", "(%s)-1" % subst(c1, {"i0": "j0"}))])], ctl=True, kind="ctl_gather"))
+                prog.features.add("ctl_double_gather")
             continue
         if kind != "GATHER_CTL":
             b.consumers[(s, sfl.name)] = "RW" if want_rw else "READ"
